@@ -184,13 +184,47 @@ def run(ctx):
                 out2, _ = simulate(m)
                 if not np.array_equal(out0, out2):
                     viol.append(dict(desc, kind=f"editing the {how} copy changed the original's simulation"))
+            # views are modules too: a pickled / deep-copied view selects the same rows, keeps its
+            # parameter-sharing structure, and make_trainable through it creates the same parameters
+            with quiet():
+                if kind == "network":
+                    mkviews = [("cell('all')", lambda x: x.cell("all")), ("cell(1).branch(0).loc(0.0)", lambda x: x.cell(1).branch(0).loc(0.0)), ("cell([0,2])", lambda x: x.cell([0, 2]))]
+                else:
+                    mkviews = [("branch('all')", lambda x: x.branch("all")), ("branch('all').loc(0.0)", lambda x: x.branch("all").loc(0.0)),
+                               ("branch('all').comp('all')", lambda x: x.branch("all").comp("all")), ("branch(0)", lambda x: x.branch(0))]
+            for vname, mkv in mkviews:
+                for how in ("pickle", "deepcopy"):
+                    try:
+                        with quiet():
+                            m0 = copy.deepcopy(m)
+                            m0.delete_trainables()
+                            v0 = mkv(m0)
+                            v1 = pickle.loads(pickle.dumps(v0)) if how == "pickle" else copy.deepcopy(v0)
+                            evals += 1
+                            cols = [c_ for c_ in ("global_comp_index", "controlled_by_param", "radius", "length") if c_ in v0.nodes.columns]
+                            same_tab = list(v0.nodes.index) == list(v1.nodes.index) and all(
+                                [repr(a) for a in v0.nodes[c_].tolist()] == [repr(a) for a in v1.nodes[c_].tolist()] for c_ in cols)
+                            if not same_tab:
+                                viol.append(dict(desc, kind=f"a {how} copy of a view shows other rows / another sharing structure", view=vname))
+                                continue
+                            if vname.startswith("cell('all')"):
+                                continue      # make_trainable is not allowed on cell('all')
+                            v0.make_trainable("radius")
+                            v1.make_trainable("radius")
+                            n0 = [np.asarray(i).shape for i in v0.base.indices_set_by_trainables]
+                            n1 = [np.asarray(i).shape for i in v1.base.indices_set_by_trainables]
+                            if n0 != n1 or v0.base.num_trainable_params != v1.base.num_trainable_params:
+                                viol.append(dict(desc, kind=f"make_trainable through a {how} copy of a view creates other parameters than through the view",
+                                                 view=vname, original=[list(x) for x in n0], copy=[list(x) for x in n1]))
+                    except Exception as ex:
+                        viol.append(dict(desc, kind=f"{how} of a view raised", view=vname, error=repr(ex)[:300]))
         except Exception as ex:
             import traceback
             viol.append(dict(desc, kind="round trip raised", error=repr(ex)[:300], trace=traceback.format_exc()[-500:]))
     for v in viol:
         v.setdefault("finding_class", None)
     return {"evaluations": evals, "distinct_nontrivial": len(distinct),
-            "rule": "modules produced by random construction / editing histories (hand-built cells incl. a parent branch shorter than its level's longest, SWC cells with radius-generating functions incl. set_ncomp, networks with synapses; channels, groups, trainables, stimuli, clamps, recordings): pickle round trip and deepcopy; canonical snapshot of all tables, bit-identical simulation on all three voltage solvers, equal gradients, no mutable container shared by id, edits of the copy leave the original's tables and simulation unchanged; distinct by (module kind, history)",
+            "rule": "modules produced by random construction / editing histories (hand-built cells incl. a parent branch shorter than its level's longest, SWC cells with radius-generating functions incl. set_ncomp, networks with synapses; channels, groups, trainables, stimuli, clamps, recordings): pickle round trip and deepcopy; canonical snapshot of all tables, bit-identical simulation on all three voltage solvers, equal gradients, no mutable container shared by id, edits of the copy leave the original's tables and simulation unchanged; pickled / deep-copied VIEWS (branch('all'), loc, comp('all'), cell subsets) show the same rows and sharing structure and create the same trainables; distinct by (module kind, history)",
             "samples": samples, "violations": viol[:20]}
 
 
